@@ -15,6 +15,7 @@ import (
 	"net"
 	"os"
 	"path/filepath"
+	"strings"
 	"sync"
 	"time"
 
@@ -29,10 +30,11 @@ import (
 )
 
 type ingRecorder struct {
-	mu        sync.Mutex
-	calls     int
-	deadline  time.Time
-	hasDL     bool
+	mu       sync.Mutex
+	calls    int
+	deadline time.Time
+	hasDL    bool
+	byName   map[string][2]time.Time // qname → (entry, deadline)
 }
 
 func (r *ingRecorder) Name() string { return "c11rec" }
@@ -44,7 +46,14 @@ func (r *ingRecorder) ServeDNS(ctx context.Context, ch *middleware.Chain) {
 	r.mu.Lock()
 	r.calls++
 	r.deadline, r.hasDL = ctx.Deadline()
+	if r.byName == nil {
+		r.byName = map[string][2]time.Time{}
+	}
+	r.byName[strings.ToLower(req.Question[0].Name)] = [2]time.Time{time.Now(), r.deadline}
 	r.mu.Unlock()
+	if verb, d := ddParse(req.Question[0].Name); verb == "slow" { // a slow resolution
+		time.Sleep(d)
+	}
 	m := new(dns.Msg)
 	m.SetReply(req)
 	m.RecursionAvailable = true
@@ -61,6 +70,8 @@ type ingEnv struct {
 	qto    time.Duration
 	dir    string
 	serial int
+	addr   string
+	cancel context.CancelFunc
 }
 
 var ing *ingEnv
@@ -68,6 +79,10 @@ var ing *ingEnv
 func (e *ingEnv) close() {
 	if e == nil {
 		return
+	}
+	if e.cancel != nil {
+		e.cancel()
+		waitFor(3*time.Second, e.srv.Stopped)
 	}
 	e.srv.Stop()
 	if e.cache != nil {
@@ -139,6 +154,13 @@ func execIng(f []string) vlib.Res {
 		middleware.Register("c11rec", func(*config.Config) middleware.Handler { return e.rec })
 		middleware.Setup(cfg)
 		e.srv = server.New(cfg)
+		e.addr = cfg.Bind
+		rctx, cancel := context.WithCancel(context.Background())
+		e.cancel = cancel
+		if err := e.srv.Run(rctx); err != nil {
+			cancel()
+			return vlib.Res{Impl: "no-listen"}
+		}
 		ing = e
 		return vlib.Res{Impl: "ok", Tags: fmt.Sprintf("inline=%s", vlib.B(e.srv.InlineReady()))}
 	case "serve":
@@ -225,6 +247,47 @@ func execIng(f []string) vlib.Res {
 		}
 		tags := "nt,shape=" + shape + ",entry=" + entry
 		return vlib.Res{Impl: fmt.Sprintf("down=%d writes=%d dl=%s", calls, writes, dls), Oracle: or, Tags: tags}
+	case "pipeline": // ing pipeline <slow_ms> <n>: one TCP connection, a slow query then n-1 quick ones in one write;
+		// the budget each frame's request runs under, measured from when the server starts serving it
+		if ing == nil || len(f) != 4 {
+			return vlib.Res{Impl: "bad-op"}
+		}
+		e := ing
+		e.serial++
+		n := vlib.Atoi(f[3])
+		a := &sysEnv{addr: e.addr, qto: e.qto}
+		var cs []*client
+		for i := 0; i < n; i++ {
+			name := fmt.Sprintf("q%df%d.ing.c11.test.", e.serial, i)
+			if i == 0 {
+				name = fmt.Sprintf("slow%d-q%d.ing.c11.test.", vlib.Atoi(f[2]), e.serial)
+			}
+			cs = append(cs, &client{kind: "pipe", name: name, qtype: dns.TypeA, id: uint16(5000 + e.serial*8 + i)})
+		}
+		a.runTCP(cs, time.Duration(vlib.Atoi(f[2]))*time.Millisecond+600*time.Millisecond, 0)
+		var budgets []string
+		or := "ok"
+		e.rec.mu.Lock()
+		for i, c := range cs {
+			rec, seen := e.rec.byName[c.name]
+			b := "unserved"
+			if seen {
+				d := rec[1].Sub(rec[0])
+				b = fmt.Sprint(d.Milliseconds())
+				if d > e.qto-150*time.Millisecond && d <= e.qto+50*time.Millisecond {
+					b = "full"
+				}
+			}
+			budgets = append(budgets, b)
+			switch {
+			case len(c.replies) != 1 && or == "ok":
+				or = fmt.Sprintf("FAIL sig=ing/pipeline/reply-count frame=%d n=%d", i, len(c.replies))
+			case b != "full" && or == "ok":
+				or = fmt.Sprintf("FAIL sig=ing/pipeline/later-frame-charged-earlier-frames-time frame=%d budget=%s want=%s", i, b, e.qto)
+			}
+		}
+		e.rec.mu.Unlock()
+		return vlib.Res{Impl: "budgets=" + strings.Join(budgets, ","), Oracle: or, Tags: "nt"}
 	case "end":
 		closeAll()
 		return vlib.Res{Impl: "closed"}
